@@ -4,21 +4,14 @@
    and the one-step unfolding of Ref.eval with its local recursive helpers named.
    Definitions only; the proofs are in Sem/OptRelProofs.v, Sem/OptOpsProofs.v, Sem/OptLibProofs.v,
    Sem/OptFlagsProofs.v and Sem/OptProofs.v.
-   (The section RefStep is the same unfolding that the C01 proofs use in Sem/Sim.v; it is repeated
-   here so that the two packages build independently.) *)
-From P2 Require Import Base.Prelude Sem.Num Sem.Syntax Sem.Ops Sem.Lib Sem.Ref Sem.Gen Sem.Opt.
+   The outcome relation rrel, the first-order test fo and the one-step unfolding of Ref.eval
+   (ref_step, r_app, r_list, ...) are those of the C01 package (Sem/Sim.v). *)
+From P2 Require Import Base.Prelude Sem.Num Sem.Syntax Sem.Ops Sem.Lib Sem.Ref Sem.Gen Sem.Sim Sem.Opt.
 
 (* ---------- outcomes ---------- *)
 
 Definition undecided {A} (r : res A) : bool := match r with OOF | Unsup => true | _ => false end.
 Definition decided {A} (r : res A) : Prop := undecided r = false.
-
-Inductive rrel {A B} (R : A -> B -> Prop) : res A -> res B -> Prop :=
-| rr_ok a b : R a b -> rrel R (Ok a) (Ok b)
-| rr_err t : rrel R (Err t) (Err t)
-| rr_panic : rrel R Panic Panic
-| rr_oof : rrel R OOF OOF
-| rr_unsup : rrel R Unsup Unsup.
 
 (* related outcomes, except that the right-hand side may be inexact *)
 Definition wrel {A B} (Q : A -> B -> Prop) (r : res A) (r' : res B) : Prop := r' = Unsup \/ rrel Q r r'.
@@ -85,6 +78,37 @@ Inductive oprel (R : value -> value -> Prop) : option value -> option value -> P
 | op_some v v' : R v v' -> oprel R (Some v) (Some v').
 
 (* t is semantically the same as t' in every environment, with the same fuel (t' needs no more) *)
+(* x occurs free in a (the reference semantics binds the parameters and the own name of a closure
+   literal in its body, a let binds its name in the rest; constants are closed) *)
+Fixpoint fv (x : name) (a : ast) {struct a} : bool :=
+  match a with
+  | AConst _ => false
+  | AIdent y => str_eqb x y
+  | ALet y v b => fv x v || (negb (str_eqb x y) && fv x b)
+  | AIf c t e => fv x c || fv x t || fv x e
+  | ASwitch v cases d =>
+      fv x v || fv x d ||
+      (fix go (l : list (ast * ast)) : bool :=
+         match l with [] => false | c :: r => (fv x (fst c) || fv x (snd c)) || go r end) cases
+  | ATry t c => fv x t || fv x c
+  | AUnary _ y => fv x y
+  | AOp _ y z => fv x y || fv x z
+  | AClosure ps body _ _ this => negb (mem_name x (ps ++ this_names this)) && fv x body
+  | AList l => (fix go (l : list ast) : bool := match l with [] => false | y :: r => fv x y || go r end) l
+  | AIndex l i => fv x l || fv x i
+  | AMap m => (fix go (m : list (name * ast)) : bool :=
+                 match m with [] => false | e :: r => fv x (snd e) || go r end) m
+  | AMember m _ => fv x m
+  | ACall fn args =>
+      fv x fn || (fix go (l : list ast) : bool := match l with [] => false | y :: r => fv x y || go r end) args
+  | AStatic _ args =>
+      (fix go (l : list ast) : bool := match l with [] => false | y :: r => fv x y || go r end) args
+  | AMethod recv _ args =>
+      fv x recv || (fix go (l : list ast) : bool := match l with [] => false | y :: r => fv x y || go r end) args
+  end.
+
+Definition closed (a : ast) : Prop := forall x, fv x a = false.
+
 Section Seq.
 Variable known : list (N * list name).
 Definition seq (t t' : ast) : Prop :=
@@ -126,6 +150,11 @@ Inductive arel : list (name * value) -> ast -> ast -> Prop :=
 | ar_closure s ps b b' outer outer' r r' this :
     arel (sdrop (ps ++ this_names this) s) b b' ->
     arel s (AClosure ps b outer r this) (AClosure ps b' outer' r' this)
+| ar_closure_fold s ps b b' outer r this :
+    (* the closure-literal rule: the optimized body uses nothing but the parameters *)
+    arel (sdrop (ps ++ this_names this) s) b b' ->
+    (forall x, fv x b' = true -> mem_name x ps = true) ->
+    arel s (AClosure ps b outer r this) (AConst (VClo ps b' [] []))
 | ar_list s l l' : Forall2 (arel s) l l' -> arel s (AList l) (AList l')
 | ar_index s l l' i i' : arel s l l' -> arel s i i' -> arel s (AIndex l i) (AIndex l' i')
 | ar_map s m m' :
@@ -137,7 +166,7 @@ Inductive arel : list (name * value) -> ast -> ast -> Prop :=
 | ar_method s recv recv' mname args args' :
     arel s recv recv' -> Forall2 (arel s) args args' ->
     arel s (AMethod recv mname args) (AMethod recv' mname args')
-| ar_step s a t t' : arel s a t -> seq known t t' -> arel s a t'
+| ar_step s a t t' : arel s a t -> closed t -> seq known t t' -> arel s a t'
 
 with vrel : value -> value -> Prop :=
 | vr_int z : vrel (VInt z) (VInt z)
@@ -149,18 +178,25 @@ with vrel : value -> value -> Prop :=
 | vr_map m1 m2 :
     Forall2 (fun e1 e2 => fst e1 = fst e2 /\ vrel (snd e1) (snd e2)) m1 m2 ->
     vrel (VMap m1) (VMap m2)
-| vr_clo s ps b b' env env' self :
+| vr_clo s ps b b' env env' self self' :
+    (* the body is an optimized form under constants the unoptimized closure has in its environment;
+       the optimized closure knows its own name like the other one, or does not need it; the two
+       environments agree on what the optimized body uses (the reference closure may capture more) *)
     arel (sdrop (ps ++ this_names self) s) b b' ->
     (forall x c, lookup x s = Some c -> exists v, lookup x env = Some v /\ vrel v c) ->
-    (forall x, lookup x s = None -> oprel vrel (lookup x env) (lookup x env')) ->
-    vrel (VClo ps b env self) (VClo ps b' env' self).
+    (self' = self \/ (self' = [] /\ (mem_name self ps = true \/ fv self b' = false))) ->
+    (forall x, fv x b' = true -> mem_name x (ps ++ this_names self) = false -> lookup x s = None ->
+               oprel vrel (lookup x env) (lookup x env')) ->
+    vrel (VClo ps b env self) (VClo ps b' env' self').
 
 Definition erel (e1 e2 : str * value) : Prop := fst e1 = fst e2 /\ vrel (snd e1) (snd e2).
 
-(* the environments of the two programs where s holds the known constants *)
-Definition env_rel (s env env' : list (name * value)) : Prop :=
+(* the environments of the two programs where s holds the known constants: related on the names in P
+   (the names the optimized program uses) *)
+Definition env_rel (s : list (name * value)) (P : name -> Prop) (env env' : list (name * value)) : Prop :=
   (forall x c, lookup x s = Some c -> exists v, lookup x env = Some v /\ vrel v c) /\
-  (forall x, lookup x s = None -> oprel vrel (lookup x env) (lookup x env')).
+  (forall x, P x -> lookup x s = None -> oprel vrel (lookup x env) (lookup x env')).
+Definition fvp (t : ast) : name -> Prop := fun x => fv x t = true.
 
 Definition orel : res value -> res value -> Prop := rrel vrel.
 
@@ -169,15 +205,6 @@ Definition R : res value -> res value -> Prop := wrel vrel.
 Definition Rl : res (list value) -> res (list value) -> Prop := wrel (Forall2 vrel).
 
 End Rel.
-
-(* first-order values: no closure anywhere inside *)
-Fixpoint fo (v : value) : bool :=
-  match v with
-  | VList l => forallb fo l
-  | VMap m => forallb (fun e => fo (snd e)) m
-  | VClo _ _ _ _ => false
-  | _ => true
-  end.
 
 (* every constant in the program is a first-order value (what the parser produces without an
    optimizer: number and string literals, true/false/pi) *)
@@ -206,150 +233,3 @@ Fixpoint consts_fo (a : ast) {struct a} : bool :=
   | AMethod recv _ args => consts_fo recv && all args
   end.
 
-(* ---------- one step of Ref.eval with the recursive calls abstracted ---------- *)
-
-Section RefStep.
-Variable known : list (N * list name).
-Variable ev : list (name * value) -> ast -> res value.
-
-Definition r_app (c : value) (args : list value) : res value :=
-  match c with
-  | VClo ps body cap self =>
-      if Nat.eqb (length args) (length ps)
-      then ev (combine ps args ++ self_binding self c ++ cap) body
-      else Err None
-  | VErrText _ => Unsup
-  | _ => Err None
-  end.
-
-Section Env.
-Variable env : list (name * value).
-
-Fixpoint r_list (l : list ast) : res (list value) :=
-  match l with
-  | [] => Ok []
-  | x :: r => bind (ev env x) (fun v => bind (r_list r) (fun vs => Ok (v :: vs)))
-  end.
-
-Section Switch.
-Variable sv : value.
-Variable d : ast.
-Fixpoint r_switch (cs : list (ast * ast)) : res value :=
-  match cs with
-  | [] => ev env d
-  | (cc, cr) :: rest =>
-      bind (ev env cc) (fun cv =>
-        match equal_fg sv cv with
-        | Ok true => ev env cr
-        | Ok false => r_switch rest
-        | Err t => Err t | Panic => Panic | OOF => OOF | Unsup => Unsup
-        end)
-  end.
-End Switch.
-
-Fixpoint r_map (m : list (name * ast)) (acc : list (str * value)) : res value :=
-  match m with
-  | [] => Ok (VMap acc)
-  | (k, x) :: r => bind (ev env x) (fun v => r_map r (acc ++ [(k, v)]))
-  end.
-
-Definition field_of (rv : value) (mname : name) : option (value * nat) :=
-  match rv with
-  | VMap entries => match assoc_v mname entries with
-                    | Some (VClo ps b c s) => Some (VClo ps b c s, length ps)
-                    | _ => None
-                    end
-  | _ => None
-  end.
-
-Definition arity_ok (ar : arity) (n : nat) : bool :=
-  match ar with Fixed k => Nat.eqb k n | VarArgs => true end.
-
-Definition ref_step (a : ast) : res value :=
-  match a with
-  | AConst v => Ok v
-  | AIdent x => match lookup x env with Some v => Ok v | None => Err None end
-  | ALet x v b => bind (ev env v) (fun vv => ev ((x, vv) :: env) b)
-  | AIf c t e =>
-      bind (ev env c) (fun cv =>
-        match cv with
-        | VBool true => ev env t
-        | VBool false => ev env e
-        | VErrText _ => Unsup
-        | _ => Err None
-        end)
-  | ASwitch v cases d => bind (ev env v) (fun sv => r_switch sv d cases)
-  | ATry t c =>
-      match ev env t with
-      | Err thrown =>
-          bind (ev env c) (fun cv =>
-            match cv with
-            | VClo [_] _ _ _ => r_app cv [VErrText thrown]
-            | _ => Ok cv
-            end)
-      | r => r
-      end
-  | AUnary op x => bind (ev env x) (fun v => ucalc op v)
-  | AOp op x y =>
-      if str_eqb op op_and then
-        bind (ev env x) (fun av =>
-          match av with
-          | VBool false => Ok (VBool false)
-          | VBool true =>
-              bind (ev env y) (fun bv =>
-                match bv with VBool b => Ok (VBool b) | VErrText _ => Unsup | _ => Err None end)
-          | _ => bind (ev env y) (fun bv => calc op av bv)
-          end)
-      else if str_eqb op op_or then
-        bind (ev env x) (fun av =>
-          match av with
-          | VBool true => Ok (VBool true)
-          | VBool false =>
-              bind (ev env y) (fun bv =>
-                match bv with VBool b => Ok (VBool b) | VErrText _ => Unsup | _ => Err None end)
-          | _ => bind (ev env y) (fun bv => calc op av bv)
-          end)
-      else bind (ev env x) (fun av => bind (ev env y) (fun bv => calc op av bv))
-  | AClosure ps body _ _ this => Ok (VClo ps body env this)
-  | AList l => bind (r_list l) (fun vs => Ok (VList vs))
-  | AIndex l i => bind (ev env i) (fun iv => bind (ev env l) (fun lv => access_list lv iv))
-  | AMap m => r_map m []
-  | AMember m key => bind (ev env m) (fun mv => access_map mv key)
-  | ACall fn args =>
-      bind (ev env fn) (fun fv =>
-        match fv with
-        | VClo ps _ _ _ =>
-            if Nat.eqb (length args) (length ps)
-            then bind (r_list args) (fun vs => r_app fv vs)
-            else Err None
-        | VErrText _ => Unsup
-        | _ => Err None
-        end)
-  | AStatic fname args =>
-      match static_arity fname with
-      | Some ar =>
-          if arity_ok ar (length args)
-          then bind (r_list args) (fun vs => run_static fname vs)
-          else Err None
-      | None => Unsup
-      end
-  | AMethod recv mname args =>
-      bind (ev env recv) (fun rv =>
-        match field_of rv mname with
-        | Some (cv, n) =>
-            if Nat.eqb (length args) n then bind (r_list args) (fun vs => r_app cv vs) else Err None
-        | None =>
-            match method_arity rv mname with
-            | Some ar =>
-                if arity_ok ar (length args)
-                then bind (r_list args) (fun vs => run_method r_app rv mname vs)
-                else Err None
-            | None => match rv with
-                      | VErrText _ => Unsup
-                      | _ => if method_exists rv mname known then Unsup else Err None
-                      end
-            end
-        end)
-  end.
-End Env.
-End RefStep.
